@@ -167,6 +167,7 @@ func (vc *FnVC) Run() {
 	vc.findLoops()
 	st := &State{m: map[string]string{}, pc: "true"}
 	vc.allocKey()
+	vc.assume(st, sx("<=", "0", entrySym("$alloc")))
 	vc.entry = st.clone()
 	// parameters
 	for i, p := range fn.Params {
@@ -913,16 +914,20 @@ func (vc *FnVC) sliceOp(st *State, s *ssa.Slice) *Val {
 			hi = vc.val(st, s.High).S
 		}
 		vc.safety(st, "slice", what, smtAnd(sx("<=", "0", lo), sx("<=", lo, hi), sx("<=", hi, n)))
+		if pa := vc.addrOf(st, x); pa != nil && sortOf(at.Elem()) != "" {
+			// materialise the array as a fresh backing store holding its current contents
+			// (later writes through the array variable are not reflected in the slice: noted)
+			base := vc.newRef(st, "arr")
+			mk := vc.memKey(at.Elem())
+			vc.set(st, mk.Name, sx("store", vc.get(st, mk.Name), base, vc.loadAddr(st, pa)))
+			if pa.Kind != "local" {
+				vc.note("slice of a non-local array: aliasing with the array variable is not modelled")
+			}
+			return &Val{T: s.Type(), S: vc.define(s.Name(), "Slice", sx("mkslice", base, lo, sx("-", hi, lo), sx("-", n, lo)))}
+		}
+		vc.note("slice of array: backing storage abstracted")
 		r := vc.freshVal(st, s.Type(), "arrslice")
 		vc.assume(st, smtAnd(sx("=", sx("s.len", r.S), sx("-", hi, lo)), sx(">", sx("s.base", r.S), "0")))
-		if pa := vc.addrOf(st, x); pa != nil && sortOf(at.Elem()) != "" {
-			if vc.arrSlices == nil {
-				vc.arrSlices = map[string]arrSlice{}
-			}
-			vc.arrSlices[r.S] = arrSlice{vc.define("arr", sortOf(at), vc.loadAddr(st, pa)), lo}
-		} else {
-			vc.note("slice of array: backing storage abstracted")
-		}
 		return r
 	}
 	return vc.freshVal(st, s.Type(), "slice")
